@@ -41,7 +41,7 @@ func TestC03(t *testing.T) {
 // of the validation rejections that happen before any handler may run.
 func genRejection(t *rapid.T, sc *Scenario) string {
 	c := &sc.Client
-	kinds := []string{"unknown_codec", "unknown_compression", "bad_timeout", "bad_flag", "cut_body", "garbage_payload", "over_limit", "wrong_reply_codec", "unknown_method", "wrong_http_method", "unclassifiable", "http1_grpc"}
+	kinds := []string{"unknown_codec", "unknown_compression", "bad_timeout", "bad_flag", "cut_body", "garbage_payload", "over_limit", "over_limit", "wrong_reply_codec", "unknown_method", "wrong_http_method", "unclassifiable", "http1_grpc"}
 	k := rapid.SampledFrom(kinds).Draw(t, "reject_kind")
 	ctHeader := func(newCT string) { c.Override = append(c.Override, KV{"Content-Type", newCT}) }
 	switch k {
@@ -131,10 +131,17 @@ func genRejection(t *rapid.T, sc *Scenario) string {
 		}
 		mi := lookupMethod(c.service(), c.Method)
 		ok := false
-		if rapid.Bool().Draw(t, "inflate_request") {
+		switch rapid.IntRange(0, 2).Draw(t, "inflate_what") {
+		case 0:
 			ok = inflate(c.Msgs, mi.In)
-		} else {
+		case 1:
 			ok = inflate(sc.Backend.Msgs, mi.Out)
+		default:
+			// trailing metadata larger than the limit: whatever the client protocol does with it, the
+			// RPC must still end with exactly one terminal disposition
+			sc.Backend.Trailers = append(sc.Backend.Trailers, KV{"X-Big", strings.Repeat("meta ", 400)})
+			fixTrailerStyle(&sc.Backend)
+			ok = true
 		}
 		if !ok {
 			sc.Config.MaxMsg = 0
